@@ -23,6 +23,7 @@ func main() {
 	list := flag.String("list-funcs", "", "debug: list module functions containing substring")
 	version := flag.Bool("version", false, "print version")
 	dumpAnchors := flag.Bool("dump-anchors", false, "maintenance: print the fingerprint file (internal/prog/anchors.json) for the loaded tree")
+	explore := flag.Bool("explore-shared", false, "maintenance: list request-reachable non-local writes")
 	flag.Parse()
 	if *version {
 		fmt.Println("oapsa static analyser for oauth2-proxy properties:", rules.IDs())
@@ -52,6 +53,10 @@ func main() {
 	if err != nil {
 		fmt.Println("load error:", err)
 		os.Exit(1)
+	}
+	if *explore {
+		rules.ExploreShared(p)
+		return
 	}
 	if *dumpAnchors {
 		b, _ := json.MarshalIndent(p.Fingerprints(), "", " ")
